@@ -18,6 +18,13 @@ THEOREMS = ['Props.C16.' + t for t in [
     'fortran_float_total', 'fortran_int_total', 'float_agrees_with_python', 'int_agrees_with_python',
     'blank_gives_blank_value_float', 'blank_gives_blank_value_int',
     'bad_character_gives_nan', 'bad_character_gives_none', 'reads_fortran_reals', 'reads_fortran_ints']]
+LEVEL_TEXT = ('Proof: 10 Lean theorems about the model of fortran_float/fortran_int (totality for every string, agreement with float()/int(), '
+              'blank value, not-a-number for any non-number character, and exact reading of every Fortran rendering of a real or integer with '
+              'arbitrary blanks), all without sorry; tied to /repo by a correspondence run (real readers vs compiled model, >100k strings incl. all '
+              'strings of length<=3 over a 20-char alphabet) and an independent oracle on rendered values.')
+LEVEL_NOTE = ('Trusted: Lean kernel (+propext, Classical.choice, Quot.sound); Py/Num.lean as a model of CPython float()/int() on ASCII (diffed against '
+              'CPython every run); decimal->double by CPython (A-float); non-ASCII text is outside the model.')
+TECHNIQUE = 'Lean 4 proof over an executable model of the try/except cascade + differential correspondence with the real readers'
 ASSUMPTIONS = [
     'ASCII text only (Python float()/int() also accept non-ASCII digits and spaces: outside the model)',
     'A-float: the model returns the exact decimal written; the decimal->double step is CPython float() (correctly rounded)',
